@@ -188,7 +188,7 @@ def _replay_instance(inst, eps=0):
 
     try:
         nodes, cgr, g = cg.build(inst, node_cls=fixtures.OracleNode)
-        gs = g.init(jax.random.PRNGKey(1))
+        gs = g.init(jax.random.PRNGKey(1), starting_eps=eps)
         fixtures.CALL_LOG.clear()
         g.rollout(gs)
         # the logging callback returns payload h(args); rebuild emitted values per (node, seq) from the log itself
@@ -259,6 +259,18 @@ def configs(tier):
     inst2.append(dict(kind="two", rate1=10, rate2=20, window12=2, window21=1, ts_max=0.4, mode="mcs", trainable=True, tmax=0.06))
     inst2.append(dict(kind="two", rate1=10, rate2=20, window12=2, window21=1, ts_max=0.4, mode="mcs", num_episodes=2, seed=3))
     inst2.append(dict(kind="three", rates=(10, 20, 15), windows=(2, 1, 2), ts_max=0.4, mode="mcs"))
+    # a high rate ratio: more than ten slots of one kind per partition (slot names get two-digit indices; uniform generations use the scan path)
+    for m in ("generational", "topological") + (("mcs",) if tier == "thorough" else ()):
+        inst2.append(dict(kind="two", rate1=5, rate2=60, window12=2, window21=1, ts_max=0.45, mode=m))
+    # multi-episode stacks whose episodes have different schedules (both orders: the sizing must cover the worst episode)
+    sets = [(0.005, 0.004), (0.105, 0.2), (0.005, 0.1), (0.105, 0.004)]
+    import itertools as _it
+    pairs = list(_it.permutations(sets, 2))
+    for pr in (pairs[:4] if tier == "quick" else pairs):
+        inst2.append(dict(kind="hetero", settings=[list(x) for x in pr], mode="mcs", ts_max=0.6))
+    if tier == "thorough":
+        for tri in list(_it.permutations(sets, 3))[:8]:
+            inst2.append(dict(kind="hetero", settings=[list(x) for x in tri], mode="generational", ts_max=0.6))
     if tier == "thorough":
         inst2.append(dict(kind="three", rates=(10, 30, 15), windows=(3, 2, 1), ts_max=0.4, mode="generational", extra_padding=1))
         inst2.append(dict(kind="two", rate1=10, rate2=20, window12=2, window21=1, ts_max=0.4, mode="topological", trainable=True, tmax=0.11))
